@@ -37,6 +37,8 @@ _op = st.one_of(
     st.tuples(st.just('parse_inflight'), _F, _V, _D, st.sampled_from(MODES),
               st.integers(0, len(CONTENTS) - 1)),
     st.tuples(st.just('touch'), _F),
+    st.tuples(st.just('copy'), _F, _F),
+    st.tuples(st.just('write_all'), st.integers(0, len(CONTENTS) - 1)),
     st.tuples(st.just('drop')),
     st.tuples(st.just('rmdir'), st.integers(0, 1)),
     st.tuples(st.just('evict')),
@@ -133,6 +135,17 @@ def run_history(ops, allow_inflight=True):
                         dirty.add(p)
             elif kind == 'touch':
                 w.touch(w.files[op[1]])
+            elif kind in ('copy', 'write_all'):
+                # files with identical content (cp a.py b.py; a checkout that writes the same boilerplate everywhere)
+                if kind == 'copy':
+                    targets, content = [w.files[op[2]]], w.model[w.files[op[1]]]
+                else:
+                    targets, content = [f for f in w.files if f not in w.alias], CONTENTS[op[1]]
+                for f in targets:
+                    w.write(f, content)
+                    for p in w.same_file(f):
+                        if p in cached:
+                            dirty.add(p)
             elif kind == 'drop':
                 pcache.parser_cache.clear()
             elif kind == 'rmdir':
@@ -214,13 +227,40 @@ def run_history(ops, allow_inflight=True):
         w.close()
 
 
+@st.composite
+def pair_histories(draw):
+    """Two paths used through the *same* grammar and cache directory: both parsed, one of them changed (often starting from
+    identical contents), both parsed again in drawn modes - with random operations in between.  Any confusion between the entries
+    of two paths, or between an entry and its in-place update, needs exactly this kind of correlated history."""
+    f1, f2 = draw(_F), draw(_F)
+    v, d = draw(_V), draw(_D)
+    filler = st.lists(_op, max_size=2)
+    ops = list(draw(filler))
+    start = draw(st.integers(0, 3))
+    if start == 0:
+        ops.append(('copy', f1, f2))
+    elif start == 1:
+        ops.append(('write_all', draw(st.integers(0, len(CONTENTS) - 1))))
+    m = st.sampled_from(MODES)
+    ops += [('parse', f1, v, d, draw(m)), ('parse', f2, v, d, draw(m))]
+    ops += draw(filler)
+    ops.append(draw(st.one_of(st.tuples(st.just('write'), st.sampled_from([f1, f2]), st.integers(0, len(CONTENTS) - 1)),
+                              st.tuples(st.just('copy'), st.sampled_from([f1, f2, draw(_F)]), st.sampled_from([f1, f2])))))
+    order = [f1, f2] if draw(st.booleans()) else [f2, f1]
+    ops += [('parse', order[0], v, d, draw(m))]
+    ops += draw(st.lists(_op, max_size=1))
+    ops += [('parse', order[1], v, d, draw(m))]
+    ops += draw(filler)
+    return ops
+
+
 class C16(Prop):
     id = 'C16'
     rule = ('Generated (model-based histories, 3-16 operations): 3 files (two share a base name) and a symbolic link to one of them x 3 grammar versions x 2 cache '
             'directories in a private temp root; operations {write file from a pool of 14 contents (mtime advances on an owned logical '
-            'clock), touch, parse by path with cache / cache+diff_cache / no cache / diff_cache only, parse with a write in flight (FileIO '
+            'clock), copy the content of one file to another, write the same content to all files, touch, parse by path with cache / cache+diff_cache / no cache / diff_cache only, parse with a write in flight (FileIO '
             'subclass that overwrites the file right after parso read it), drop the in-memory cache (what a restart does), delete a cache '
-            'directory, force memory eviction}. All timestamps are kept on one logical clock: pickles written during a call are '
+            'directory, force memory eviction}; one third of the histories are *pair histories* (two paths through the same grammar and cache directory: both parsed, one changed - often from identical contents -, both parsed again, random operations in between). All timestamps are kept on one logical clock: pickles written during a call are '
             're-stamped with the next tick. Oracle (dict-of-files model): every parse returns a tree equal (own comparator) to a fresh '
             'parse of the content the model says was on disk at read time. Non-trivial: history with a write after a cached parse of the '
             'same file followed by another parse of it. Distinct by operation sequence.')
@@ -233,7 +273,8 @@ class C16(Prop):
         if tier == 'thorough':
             # thorough only (an interpreter start + grammar generation per operation): real process restarts
             op = st.one_of(*([_op] * 40 + [st.tuples(st.just('parse_restarted'), _F, _V, _D, st.sampled_from(MODES))]))
-        return st.fixed_dictionaries({'ops': st.lists(op, min_size=3, max_size=16).map(lambda l: [list(o) for o in l])})
+        hist = st.one_of(st.lists(op, min_size=3, max_size=16), st.lists(op, min_size=3, max_size=16), pair_histories())
+        return st.fixed_dictionaries({'ops': hist.map(lambda l: [list(o) for o in l])})
 
     def check(self, case):
         ops = [tuple(o) for o in case['ops']]
@@ -244,7 +285,7 @@ class C16(Prop):
         kinds = {o[0] for o in ops}
         if info.get('restarts'):
             classes.append('real-restart')
-        for k in ('drop', 'rmdir', 'evict', 'touch'):
+        for k in ('drop', 'rmdir', 'evict', 'touch', 'copy', 'write_all'):
             if k in kinds:
                 classes.append(k)
         return Outcome(fail=fail, nontrivial=info['wrote_after_cached_then_parsed'], classes=classes,
